@@ -83,7 +83,7 @@ func c19Label(rel, fn string) string {
 }
 
 func runC19(c *eng.Ctx) {
-	r1 := c.Rule("C19.R1", "J:taint+quoting", "no binding-context-derived expansion undergoes word splitting / globbing where it is used as a command word, an argument, a `for` list or a redirection target", 30)
+	r1 := c.Rule("C19.R1", "J:taint+quoting", "no binding-context-derived expansion undergoes word splitting / globbing where it is used as a command word, an argument, a `for` list or a redirection target", 15)
 	r2 := c.Rule("C19.R2", "J:dispatch table+structure", "dispatch table (type[/watchEvent] -> ordered candidates) is ordered, equals the reference, `__main__` last; runner = first defined candidate, its status, non-zero when none; hook::run: --config first, contexts 0..length-1 ascending", 34)
 	sh := &c19sh{files: map[string]*eng.ShFile{}, funcs: map[string]*eng.ShCmd{}, where: map[string]string{}}
 	ok := true
